@@ -82,7 +82,7 @@ int main(int argc, char **argv) {
         br_automata_destroy(a0);
         for (int st = 0; st < 4 && ok; st++)
             for (int e = 0; e < 8 && ok; e++) {
-                std::set<int64_t> els = {0, std::max(0, tm[st] - 1), tm[st], tm[st] + 1, 10 * (int64_t)tm[st]};
+                std::set<int64_t> els = {0, std::max(0, tm[st] - 1), tm[st], tm[st] + 1, 10 * (int64_t)tm[st], 32767, 32768, 65535, 65536, 65537, 2147483647LL, 2147483648LL, 4294967296LL};
                 for (int64_t el : els) {
                     if (a.shard != 0) continue;   // 160 cells: one shard does them all
                     Case c; c.cfg = {0, st, e, el};
